@@ -10,6 +10,20 @@ Definition C18_statement : Prop := forall t v, of_type t v -> roundtrip true t v
 Theorem C18_roundtrip_partial : forall t v, representable t v -> roundtrip true t v = Ok v.
 Proof. exact roundtrip_ok. Qed.
 
+(* The repaired decoding (fix 4112ced4, UseNumber): the full statement for the four modelled column types — EVERY value
+   the column's documented type can hold (the whole int64 range, both booleans, every string, every instant to the
+   nanosecond) is read back as itself. *)
+Definition C18_statement_exact : Prop := forall t v, of_type t v -> roundtrip_n true true t v = Ok v.
+Theorem C18_roundtrip_full : C18_statement_exact.
+Proof. exact roundtrip_n_ok. Qed.
+
+(* ... and over any history of create / drop / write / read / schema-cache loss on one table name. *)
+Theorem C18_current_schema_full :
+  forall h t v, actual (trun true h) = Some t -> of_type t v ->
+    snd (tstep true (fst (tstep true (trun true h) (TWrite v))) TRead) = Some (Ok v).
+Proof. exact write_read_current_full. Qed.
+
+(* The OLD decoding (roundtrip = every JSON number through float64). *)
 (* The statement fails for int columns: JSON numbers pass through float64.  2^53+1 comes back as 2^53 and the
    largest int64 comes back as the smallest. *)
 Theorem C18_int_refuted : exists v v', of_type TInt v /\ roundtrip true TInt v = Ok v' /\ v' <> v.
@@ -54,3 +68,8 @@ Example C18_ex_chain :
   chain_reads true tinit None [TCreate TInt; TWrite (VInt 7); TRead; TDrop; TCreate TStr; TWrite (VStr [48; 48; 55]%N); TRead] = [1; 1]
   /\ chain_reads false tinit None [TCreate TInt; TWrite (VInt 7); TRead; TDrop; TCreate TStr; TWrite (VStr [48; 48; 55]%N); TRead] = [1; 0].
 Proof. vm_compute. split; reflexivity. Qed.
+Example C18_ex_full :
+  of_type TInt (VInt 9223372036854775807) /\ roundtrip_n true true TInt (VInt 9223372036854775807) = Ok (VInt 9223372036854775807)
+  /\ roundtrip_n false true TInt (VInt 9223372036854775807) = Ok (VInt (-9223372036854775808))
+  /\ roundtrip_n true true TInt (VInt (-9223372036854775808)) = Ok (VInt (-9223372036854775808)).
+Proof. cbn [of_type]. unfold two63. repeat split; try lia; vm_compute; reflexivity. Qed.
